@@ -226,7 +226,7 @@ def run(kind, prob, x0, settings, precond="exact", script=None, bounds=None, pre
         ev.append(dict(e="Return", flag=bool(flag), last=(_key(xr) == last_k), gSmall=bool(gs < tol * (1 + 1e-12)),
                        agree=agree, feas=feas(xr), feasClass=feas_class(xr)))
     else:
-        ev.append(dict(e="Raised", what=raised[:200]))
+        ev.append(dict(e="Raised", what=raised[:200], cauchy=bool(kind == "spg" and "No acceptable Cauchy point" in raised)))
     return dict(id=tid, incr=incr, convex=convex_ref is not None, bounded=bounds is not None,
                 scripted=script is not None, ev=ev,
                 n_scripted=proxy._n_scripted)
